@@ -57,6 +57,8 @@ class World(object):
         except OSError:
             self.alias = self.dir
         self.model = {}
+        self.kept = []     # exception objects (with their tracebacks) that the caller has not let go of yet
+        self.sigs = {}     # long-lived signal objects that are saved more than once
         self.prev = {}     # path -> preceding event class
         self.stats = {"steps": 0, "ops": {}, "faults": {}, "cells": set(), "kindseq": set(), "nontrivial": 0,
                       "outcomes": {}, "runs": 0, "loads_compared": 0, "loads_of_unknown": 0, "saves_ok": 0,
@@ -135,6 +137,8 @@ class C16(Profile):
 
     # ------------------------------------------------------------------------------------------
     def kind_of(self, op):
+        if op["op"] == "release":
+            return "release"
         f = op.get("fault")
         return "%s:%s%s" % (op["op"], op["via"], ("+" + f["kind"]) if f else "")
 
@@ -171,7 +175,29 @@ class C16(Profile):
 
     def _exec(self, world, op):
         eqsig = self.eqsig
+        if op["op"] == "release":
+            import gc
+            del world.kept[:]
+            gc.collect()
+            return None
         path = self._path(world, op)
+        if op["op"] == "save" and "obj" in op:
+            # a signal object that lives on between saves (created on first use, saved again later unchanged)
+            sig = world.sigs.get(op["obj"])
+            if sig is None:
+                cls = getattr(eqsig, op["via"].split(":")[1])
+                sig = cls(codec.dec(op["values"]), op["dt"], label=op["label"])
+                world.sigs[op["obj"]] = sig
+            return eqsig.save_signal(path, sig)
+        if op["op"] == "save" and "bad_sample" in op:
+            # K1: one sample cannot be written; the caller keeps the exception (and with it the frames it refers to)
+            vals = codec.dec(op["values"]).tolist()
+            vals[op["bad_sample"] % len(vals)] = None
+            try:
+                return eqsig.save_values_and_dt(path, vals, op["dt"], op["label"])
+            except Exception as e:  # noqa
+                world.kept.append(e)
+                raise
         if op["op"] == "save":
             vals = codec.dec(op["values"])
             form = op.get("as")
@@ -224,6 +250,10 @@ class C16(Profile):
         st = world.stats
         st["steps"] += 1
         kind = self.kind_of(op)
+        if op["op"] == "release":
+            agg_add(st["ops"], "release")
+            out = capture(self._exec, world, op)
+            return out.digest(), None
         agg_add(st["ops"], op["op"] + ":" + op["via"])
         world.kinds.append(kind)
         fault = op.get("fault")
@@ -275,6 +305,9 @@ class C16(Profile):
         if op["op"] == "save":
             rec = {"values": np.asarray(codec.dec(op["values"]), dtype=float), "dt": float(self._typed_dt(op)), "label": op["label"],
                    "via": op["via"]}
+            if "obj" in op and op["obj"] in world.sigs:
+                o = world.sigs[op["obj"]]
+                rec = {"values": np.asarray(o.values, dtype=float).copy(), "dt": float(o.dt), "label": o.label, "via": op["via"]}
             old = world.model.get(f)
             if out.ok:
                 # a save that returns normally is acknowledged, whether or not a fault was injected into it:
@@ -291,6 +324,11 @@ class C16(Profile):
                 pk = world.pending_recover.pop(f, None)
                 if pk:
                     st["faults"][pk]["recovered"] += 1
+                return None
+            if not out.ok and not real_fault and "bad_sample" in op:
+                st["faults"].setdefault("K1", {"armed": 0, "fired": 0, "recovered": 0})["armed"] += 1
+                st["faults"]["K1"]["fired"] += 1
+                world.model[f] = UNKNOWN          # (the unchanged code leaves the old file alone; C16 does not promise it)
                 return None
             if not out.ok and not real_fault:
                 # a save that fails without any injected fault
@@ -479,6 +517,7 @@ class Gen(object):
         self.emitted = 0
         self.files = ["f%d" % i for i in range(config["n_files"])]
         self.last_faulted = None
+        self.pool = {}         # file -> the save records of the long-lived signal objects that go to it
         self.saved = {}        # file -> the last few save records issued for it (a caller may save the same record again)
 
     def _plan_sweep(self):
@@ -527,6 +566,12 @@ class Gen(object):
 
     def __call__(self, world, step):
         rng = self.rng
+        if not self.cfg.get("sweep") and world.kept and rng.random() < 0.3:
+            return {"op": "release"}
+        if not self.cfg.get("sweep") and self.emitted >= self.cfg["length"] and world.kept:
+            # before the history ends the caller lets go of what it kept, and looks at the files once more
+            self.cfg["length"] += 2
+            return {"op": "release"}
         if self.cfg.get("sweep"):
             if step == 0:
                 self._plan_sweep()
@@ -547,7 +592,34 @@ class Gen(object):
             else:
                 op = self.g_save(f)
                 if rng.random() < 0.2:
-                    op["spell"] = rng.choice([1, 2, 3, 4, 4, 5, 5, 6, 6, 7])
+                    op["spell"] = rng.choice([1, 2, 3, 4, 4, 6, 6, 7])
+                c = rng.random()
+                if c < 0.06 and self.cfg["faults_on"] and len(op["values"]["v"]) >= 2 and op["values"]["nd"] == "f8":
+                    op["via"] = "save_values_and_dt"
+                    op["bad_sample"] = rng.randrange(len(op["values"]["v"]))
+                    op.pop("as", None)
+                    op.pop("dt_type", None)
+                elif c < 0.2 and op["via"].startswith("save_signal") and op["values"]["nd"] == "f8" and not op.get("as") \
+                        and not op.get("dt_type") and len(op["values"]["v"]) <= 64:
+                    # long-lived signal objects: the same object is saved again later; a sibling of it -- one sample
+                    # differs in its last written digit, the label has the same length -- goes to the same path in between
+                    pool = self.pool.setdefault(f, [])
+                    if len(pool) < 2:
+                        if pool:
+                            base = pool[0]
+                            vals = list(base["values"]["v"])
+                            i = rng.randrange(len(vals))
+                            vals[i] = float("%.6f" % vals[i]) + (1e-6 if vals[i] >= 0 else -1e-6)
+                            lab = base["label"][:-1] + ("x" if not base["label"].endswith("x") else "y") if base["label"] else ""
+                            sib = dict(base, values={"nd": "f8", "v": [float("%.6f" % v) if j != i else vals[i] for j, v in enumerate(vals)]},
+                                       label=lab, obj="O%d%s" % (len(pool), f))
+                            pool.append(sib)
+                        else:
+                            op["obj"] = "O0" + f
+                            op["values"] = {"nd": "f8", "v": [float("%.6f" % v) for v in op["values"]["v"]]}
+                            pool.append(dict(op))
+                    op = dict(rng.choice(pool))
+                    op.pop("fault", None)
             self.saved.setdefault(f, []).append({k: v for k, v in op.items() if k != "fault"})
             self.saved[f] = self.saved[f][-3:]
         else:
@@ -572,10 +644,13 @@ class Gen(object):
             if rng.random() < 0.3:
                 # exact multiples of the block sizes people write loops around (powers of two, round decimal numbers)
                 base = rng.choice([500, 1000, 1024, 2000, 2048, 2500, 3000, 4000, 4096, 5000, 6000, 8000, 8192, 10000, 12000,
-                                   15000, 16384, 20000, 25000, 30000, 32768, 50000])
+                                   15000, 16384, 20000, 25000, 30000, 32768, 50000,
+                                   6553, 13107, 26214, 52428, 21845, 43690])      # ... and a tenth / a third of a power of two
                 n = min(base * rng.choice([1, 1, 2, 3]), 100000)
             if rng.random() < 0.012:
                 n = rng.randint(100001, 104000)      # beyond the next power of ten as well (costs about a second per round trip)
+            if self.cfg.get("tier") == "thorough" and rng.random() < 0.004:
+                n = rng.randint(425000, 470000)      # a value column of more than 4 MiB (several seconds per round trip)
         elif r < 0.12:
             n = 1
         elif r < 0.2:
